@@ -1,4 +1,13 @@
 """C14 - includes act as in-place inclusion; files resolve through ordered locations."""
+import os
+import shutil
+import sys
+import tempfile
+
+FIX = os.path.join(os.path.dirname(os.path.dirname(os.path.dirname(os.path.abspath(__file__)))), 'fixtures')
+if FIX not in sys.path:
+  sys.path.insert(0, FIX)        # fixture package vfp14 (package-relative .gin names)
+
 import gin
 from gin import config as gc
 from vf import rt
@@ -14,18 +23,37 @@ SHAPES = [
 IMPORTS = {'A': ['os'], 'B': ['sys', 'os.path'], 'C': []}
 
 
-def file_text(shape, name, pre, post, mid):
+# how the conflicting binding is written on either side of a file boundary
+SPELLS = ['flat', 'block in B', 'short selector in A and C', 'scoped key', 'macro']
+
+
+def writer(spell, name, k):
+  """One statement (possibly two lines) that writes the contested value from constant vwc.V<k>."""
+  if spell == 1 and name == 'B':
+    return 'vw.dflt:\n  a = %%vwc.V%s' % k
+  if spell == 2 and name != 'B':
+    return 'dflt.a = %%vwc.V%s' % k
+  if spell == 3:
+    return 's14/vw.dflt.a = %%vwc.V%s' % k
+  if spell == 4:
+    return 'X14 = %%vwc.V%s' % k
+  return 'vw.dflt.a = %%vwc.V%s' % k
+
+
+def file_text(shape, name, pre, post, mid, spell=0):
   lines = ['import ' + m for m in IMPORTS[name]]
   i = 'ABC'.index(name)
+  if spell == 4 and name == 'A':
+    lines.append('vw.dflt.a = %X14')        # the macro is (re)bound on both sides of the boundaries below
   if pre[i]:
-    lines.append('vw.dflt.a = %%vwc.V%d' % (2 * i))
+    lines.append(writer(spell, name, 2 * i))
   incs = SHAPES[shape][name]
   for n, inc in enumerate(incs):
     lines.append("include '%s.gin'" % inc)
     if n == 0 and len(incs) > 1 and mid:
-      lines.append('vw.dflt.a = %vwc.VM')
+      lines.append(writer(spell, name, 'M'))
   if post[i]:
-    lines.append('vw.dflt.a = %%vwc.V%d' % (2 * i + 1))
+    lines.append(writer(spell, name, 2 * i + 1))
   lines.append('vw.kws.%s = 1' % name.lower())
   return '\n'.join(lines) + '\n'
 
@@ -51,12 +79,13 @@ def tree_of(result):
 
 
 def c14_include(shape: int, mid: bool, a1: bool, a2: bool, b1: bool, b2: bool, c1: bool, c2: bool,
-                v0: int, v1: int, v2: int, v3: int, v4: int, v5: int, vm: int) -> bool:
+                v0: int, v1: int, v2: int, v3: int, v4: int, v5: int, vm: int, spell: int = 0) -> bool:
   """
-  pre: 0 <= shape < 4
+  pre: 0 <= shape < 4 and 0 <= spell < 5
   """
   world.fresh()
   shape = rt.pick(shape, 4)
+  spell = rt.pick(spell, 5)
   mid = rt.flag(mid)
   pre = [rt.flag(a1), rt.flag(b1), rt.flag(c1)]
   post = [rt.flag(a2), rt.flag(b2), rt.flag(c2)]
@@ -64,17 +93,24 @@ def c14_include(shape: int, mid: bool, a1: bool, a2: bool, b1: bool, b2: bool, c
   for k, v in vals.items():
     gin.constant('vwc.V%s' % k, v)
   with rt.native():
-    files = {n + '.gin': file_text(shape, n, pre, post, mid) for n in 'ABC'}
+    files = {n + '.gin': file_text(shape, n, pre, post, mid, spell) for n in 'ABC'}
     world.use_mem_fs(files)
     writers = []
     want_tree = flatten(shape, 'A', pre, post, mid, writers)
-  rt.sig(('include', shape, mid, tuple(pre), tuple(post)), nontrivial=len(writers) >= 2)
+  rt.sig(('include', shape, mid, tuple(pre), tuple(post), spell), nontrivial=len(writers) >= 2)
   with rt.native():
     result = gin.parse_config_file('A.gin')
     if tree_of(result) != want_tree:
       return rt.no('include tree')
     cfg_inc = gin.config_str()
-  bound = gin.get_bindings('vw.dflt')
+  if spell == 3:
+    if gin.get_bindings('vw.dflt'):
+      return rt.no('a scoped key leaked into the unscoped configurable')
+    bound = gin.get_bindings('s14/vw.dflt')
+  elif spell == 4 and not writers:
+    bound = {}        # `vw.dflt.a = %X14` with the macro never bound: nothing to resolve (text comparison below)
+  else:
+    bound = gin.get_bindings('vw.dflt')
   if writers:
     if list(bound) != ['a'] or not rt.same('last writer', bound['a'], vals[writers[-1]]):
       return rt.no('last writer')
@@ -100,12 +136,16 @@ LOCS = ['', '/p1', '/p2']
 
 
 def c14_search(badinc: bool, order: bool, rorder: bool, absolute: bool,
-               e00: bool, e01: bool, e10: bool, e11: bool, e20: bool, e21: bool) -> bool:
+               e00: bool, e01: bool, e10: bool, e11: bool, e20: bool, e21: bool,
+               deco: bool = False, vanish: bool = False) -> bool:
   """
   pre: True
   """
   world.fresh()
   order, rorder, absolute, badinc = rt.flag(order), rt.flag(rorder), rt.flag(absolute), rt.flag(badinc)
+  deco, vanish = rt.flag(deco), rt.flag(vanish)
+  if vanish and badinc:
+    rt.discard()          # one fault at a time
   # existence of the file per (location, reader) stays SYMBOLIC: Gin's resolution
   # loop forks on the readers' existence checks themselves
   exists = {('', 0): e00, ('', 1): e01, ('/p1', 0): e10, ('/p1', 1): e11,
@@ -125,6 +165,9 @@ def c14_search(badinc: bool, order: bool, rorder: bool, absolute: bool,
 
     def op(path):
       seen.append((path, reader))
+      if vanish:
+        # the existence check said yes, the open fails (the file vanished in between)
+        raise FileNotFoundError(2, 'vanished', path)
       code = 100 + 10 * LOCS.index(path[:-len('/f.gin')] if (path.endswith('/f.gin') and not absolute) else '') + reader
       # with `badinc` every candidate first binds its code, then includes a name nobody can read
       return world._MemFile(path, 'vw.dflt.a = %d\n' % code + ("include 'nobody_has_this.gin'\nvw.dflt.b = 1\n" if badinc else ''))
@@ -134,7 +177,11 @@ def c14_search(badinc: bool, order: bool, rorder: bool, absolute: bool,
   if rorder:
     readers.reverse()
   for op, ex in readers:
-    gin.config.register_file_reader(op, ex)
+    if deco:
+      if gin.config.register_file_reader(ex)(op) is not None:      # decorator form: existence check first
+        return rt.no('decorator form')
+    else:
+      gin.config.register_file_reader(op, ex)
   locs = ['/p1', '/p2']
   if order:
     locs.reverse()
@@ -153,7 +200,7 @@ def c14_search(badinc: bool, order: bool, rorder: bool, absolute: bool,
     for r in rorder_ids:
       if winner is None and exists[(loc, r)]:      # (forks only on feasible paths)
         winner = (loc, r)
-  rt.sig(('search', badinc, order, rorder, absolute, winner), nontrivial=winner is not None)
+  rt.sig(('search', badinc, order, rorder, absolute, winner, deco, vanish), nontrivial=winner is not None)
   if winner is None:
     if not isinstance(exc, IOError) or gc._CONFIG:
       return rt.no('missing everywhere must raise IOError and apply nothing')
@@ -163,6 +210,14 @@ def c14_search(badinc: bool, order: bool, rorder: bool, absolute: bool,
   want = 100 + 10 * LOCS.index(winner[0]) + winner[1]
   if absolute:
     want = 100 + winner[1]
+  if vanish:
+    # the first reader that claims the name is THE reader: its failure to open propagates, no other candidate
+    # (reader or location) is tried, and nothing is applied
+    if exc is None:
+      return rt.no('open failed after a positive existence check, yet no exception')
+    if len(seen) != 1 or seen[0][1] != winner[1]:
+      return rt.no('another candidate was opened after the failed open: %r' % (seen,))
+    return not gc._CONFIG or rt.no('bindings applied although the open failed')
   if badinc:
     # the first-found file is THE file: its unreadable include raises, what preceded it took effect,
     # and no other candidate is ever opened
@@ -235,32 +290,421 @@ def c14_entry(nfiles: int, b: bool, fin: bool, unknown: int, entry: int,
   return rt.same('order files, bindings', got['a'], want)
 
 
+
+# ---- package-relative names (gin/resource_reader.py) ---------------------------------------------------
+# fixture package /verif/fixtures/vfp14:  top.gin (140)  x.gin (148)  modu.py  sub/{x.gin (141), inc.gin, f14.gin (144)}
+#                                         beta/ (package without .gin files)   nsp/x.gin (147; no __init__.py)
+ABS_X = os.path.join(FIX, 'vfp14', 'sub', 'x.gin')
+# (name given to Gin, search location added first or None)
+PKG_NAMES = [
+    ('vfp14/top.gin', None),            # 0 file in a top-level package
+    ('vfp14/sub/x.gin', None),          # 1 file in a sub-package
+    ('vfp14.sub/x.gin', None),          # 2 dotted spelling of the package
+    ('vfp14/sub/inc.gin', None),        # 3 package file that includes a package-relative name
+    ('nopkg14/sub/x.gin', None),        # 4 the parent package does not exist (ModuleNotFoundError inside)
+    ('vfp14/nosub/x.gin', None),        # 5 the sub-package does not exist
+    ('vfp14/sub/missing.gin', None),    # 6 the package exists, the file does not
+    ('vfp14/nsp/x.gin', None),          # 7 the head is a namespace package (directory without __init__.py)
+    ('vfp14/modu/x.gin', None),         # 8 the head names a module, not a package (vfp14/x.gin exists)
+    ('x.gin', 'vfp14/sub'),             # 9 bare name found by the package reader at an added location
+    ('x.gin', 'vfp14/sub/'),            # 10 ... location written with a trailing slash
+    ('sub/x.gin', 'vfp14'),             # 11 name with a sub-directory under an added location
+    (ABS_X, None),                      # 12 absolute path of the same file (built-in open)
+]
+X_TREE = [('os.path',), ('os',)]        # `from os import path` (either spelling of the module is accepted)
+MEM_CODE = 149
+
+
+def _tree(r):
+  return (r.filename, tuple(r.imports), tuple(_tree(i) for i in r.includes))
+
+
+def _state():
+  """Plain copy of Gin's binding store: {(scope, selector): {param: int | 'REF'}}."""
+  out = {}
+  for k, v in gc._CONFIG.items():
+    out[k] = {p: (x if isinstance(x, int) else 'REF') for p, x in v.items()}
+  return out
+
+
+def _ioerror_ok(exc, name, search):
+  if not isinstance(exc, IOError):
+    return rt.no('a name nobody can read must raise IOError, got %r' % (exc,))
+  msg = str(exc)
+  return (name in msg and all(repr(l) in msg for l in search)) or rt.no('IOError text: ' + msg)
+
+
+def c14_pkg(name: int, via: int, mem: int) -> bool:
+  """
+  pre: 0 <= name < 13 and 0 <= via < 4 and 0 <= mem < 3
+  """
+  world.fresh()
+  kind = rt.pick(name, 13)
+  via = rt.pick(via, 4)       # 0 parse_config_file, 1 include in a file, 2 multi-file entry, 3 include in bindings
+  mem = rt.pick(mem, 3)       # in-memory reader (registered after the package reader): 0 no file,
+  #                             1 file under the name as given, 2 file under <added location>/<name>
+  with rt.native():
+    fname, loc = PKG_NAMES[kind]
+    if mem == 2 and loc is None:
+      rt.discard()
+    rt.sig(('pkg', kind, via, mem))
+    memkey = fname if mem == 1 else os.path.join(loc, fname) if mem == 2 else None
+    files = {'t14.gin': "vw.dflt.b = 1\ninclude '%s'\nvw.dflt.b = 2\n" % fname}
+    if memkey:
+      files[memkey] = 'vw.dflt.a = %d\n' % MEM_CODE
+    world.use_mem_fs(files)
+    if loc is not None:
+      gin.add_config_file_search_path(loc)
+    search = [''] if (loc is None or os.path.isabs(fname)) else ['', loc]
+    # ---- reference: locations outer; within one: built-in open, package reader, in-memory reader ----------
+    pkgfile = {'vfp14/top.gin': 'top', 'vfp14/sub/x.gin': 'x', 'vfp14.sub/x.gin': 'x', 'vfp14/sub/inc.gin': 'inc'}
+    want = None
+    for l in search:
+      path = os.path.join(l, fname)
+      if want is None and path == ABS_X:
+        want = 'x'
+      if want is None and path in pkgfile:
+        want = pkgfile[path]
+      if want is None and path == memkey:
+        want = 'mem'
+    xt = None
+    exc = res = None
+    try:
+      if via == 0:
+        res = gin.parse_config_file(fname)
+      elif via == 1:
+        res = gin.parse_config_file('t14.gin')
+        if res.filename != 't14.gin' or list(res.imports) or len(res.includes) != 1:
+          return rt.no('tree of the including file')
+        res = res.includes[0]
+      elif via == 2:
+        res = gin.parse_config_files_and_bindings([fname], ['vw.dflt.b = 2'])
+        if len(res) != 1:
+          return rt.no('returned list')
+        res = res[0]
+      else:
+        incs, imps = gin.parse_config(['vw.dflt.b = 1', "include '%s'" % fname, 'vw.dflt.b = 2'])
+        if imps or len(incs) != 1:
+          return rt.no('includes returned by parse_config')
+        res = incs[0]
+    except Exception as e:
+      exc = e
+    st = _state()
+    dflt = dict(st.get(('', 'vw.dflt'), {}))
+    kws = st.get(('', 'vw.kws'), {})
+    b = dflt.pop('b', None)
+    if kind == 7 and exc is None and dflt == {'a': 147} and _tree(res) == (fname, (), ()):
+      want = 'nsp'        # a namespace package IS on the Python path: reading the file there is accepted too
+    if want is None:
+      if not _ioerror_ok(exc, fname, search):
+        return False
+      if dflt or kws:
+        return rt.no('something was applied from a name nobody can read: %r %r' % (dflt, kws))
+      if gin.config_is_locked():
+        return rt.no('finalized after a missing file')
+      return b == (1 if via in (1, 3) else None) or rt.no('state of the including text after the failure')
+    if exc is not None:
+      return rt.no('readable name raised %r' % (exc,))
+    if b != (None if via == 0 else 2):
+      return rt.no('rest of the including text / the extra bindings')
+    if via == 2 and not gin.config_is_locked():
+      return rt.no('not finalized')
+    t = _tree(res)
+    if want == 'mem':
+      return (dflt == {'a': MEM_CODE} and not kws and t == (fname, (), ())) or rt.no('in-memory file expected')
+    if want == 'nsp':
+      return True
+    if want == 'top':
+      return (dflt == {'a': 140} and kws == {'top': 1} and t == (fname, ('os.path',), ())) or rt.no('top.gin')
+    if want == 'x':
+      return (dflt == {'a': 141} and kws == {'x': 1} and t in [(fname, i, ()) for i in X_TREE]) or rt.no('x.gin')
+    return (dflt == {'a': 141} and kws == {'x': 1, 'inc': 1} and
+            t in [(fname, ('sys',), (('vfp14/sub/x.gin', i, ()),)) for i in X_TREE]) or rt.no('inc.gin')
+
+
+# ---- real files on disk, the package reader and a registered reader at the same locations ---------------
+DISK_CODE, PKG_CODE = 110, 144
+
+
+def c14_disk(l1: int, l2: int, dp: bool, m0: bool, m1: bool, m2: bool, slash: bool, absn: bool) -> bool:
+  """
+  pre: 0 <= l1 < 3 and 0 <= l2 < 3
+  """
+  world.fresh()
+  l1, l2 = rt.pick(l1, 3), rt.pick(l2, 3)   # kind of the two added locations: 0 real directory <tmp>/p,
+  #                                           1 package directory vfp14/sub (holds f14.gin), 2 package vfp14/beta
+  dp = rt.flag(dp)                           # f14.gin exists on disk in <tmp>/p
+  m = [rt.flag(m0), rt.flag(m1), rt.flag(m2)]   # the in-memory reader has the file at location '' / first / second
+  slash, absn = rt.flag(slash), rt.flag(absn)
+  with rt.native():
+    rt.sig(('disk', l1, l2, dp, tuple(m), slash, absn), nontrivial=dp or any(m))
+    tmp = tempfile.mkdtemp(prefix='vf14_')
+    try:
+      p = os.path.join(tmp, 'p')
+      os.mkdir(p)
+      disk = os.path.join(p, 'f14.gin')
+      if dp:
+        with open(disk, 'w') as f:
+          f.write('vw.dflt.a = %d\n' % DISK_CODE)
+      locs = [[p, 'vfp14/sub', 'vfp14/beta'][k] + ('/' if slash else '') for k in (l1, l2)]
+      fname = disk if absn else 'f14.gin'
+      files = {}
+      for i, l in enumerate([''] + locs):
+        if m[i]:
+          files[os.path.join(l, fname)] = 'vw.dflt.a = %d\n' % (120 + i)    # (same location twice: one file, last code)
+      world.use_mem_fs(files)
+      for l in locs:
+        gin.add_config_file_search_path(l)
+      search = [''] if absn else [''] + locs
+      want = None
+      for l in search:
+        path = os.path.join(l, fname)
+        if want is None and dp and path == disk:
+          want = DISK_CODE                     # 1st reader: built-in open
+        if want is None and path == 'vfp14/sub/f14.gin':
+          want = PKG_CODE                      # 2nd reader: Python-path reader
+        if want is None and path in files:
+          want = int(files[path].split('=')[1])   # 3rd reader: the registered one
+      exc = None
+      try:
+        res = gin.parse_config_file(fname)
+      except Exception as e:
+        exc = e
+      st = _state()
+      if want is None:
+        return (_ioerror_ok(exc, fname, search) and not st) or rt.no('applied something: %r' % (st,))
+      if exc is not None:
+        return rt.no('readable name raised %r' % (exc,))
+      a = st.get(('', 'vw.dflt'), {}).get('a')
+      return (a == want and res.filename == fname) or rt.no('wrong file: got %r want %r' % (a, want))
+    finally:
+      shutil.rmtree(tmp, ignore_errors=True)
+
+
+# ---- the including file found in a non-first location: the nested name restarts from the full list --------
+def c14_nested(order: bool, a0: bool, a1: bool, a2: bool, b0: bool, b1: bool, b2: bool) -> bool:
+  """
+  pre: True
+  """
+  world.fresh()
+  order = rt.flag(order)
+  ea = [rt.flag(a0), rt.flag(a1), rt.flag(a2)]     # A.gin present at '', /p1, /p2
+  eb = [rt.flag(b0), rt.flag(b1), rt.flag(b2)]     # B.gin present at '', /p1, /p2
+  with rt.native():
+    files = {}
+    for i, l in enumerate(LOCS):
+      if ea[i]:
+        files[os.path.join(l, 'A.gin')] = "vw.dflt.a = %d\ninclude 'B.gin'\nvw.kws.after = 1\n" % (200 + i)
+      if eb[i]:
+        files[os.path.join(l, 'B.gin')] = 'vw.dflt.b = %d\n' % (210 + i)
+    world.use_mem_fs(files)
+    locs = ['/p2', '/p1'] if order else ['/p1', '/p2']
+    for l in locs:
+      gin.add_config_file_search_path(l)
+    search = [''] + locs
+    wa = ([LOCS.index(l) for l in search if ea[LOCS.index(l)]] + [None])[0]
+    wb = ([LOCS.index(l) for l in search if eb[LOCS.index(l)]] + [None])[0]
+    rt.sig(('nested', order, wa, wb, tuple(ea), tuple(eb)), nontrivial=wa is not None and wa != 0)
+    exc = None
+    try:
+      res = gin.parse_config_file('A.gin')
+    except Exception as e:
+      exc = e
+    st = _state()
+    if wa is None:
+      return (_ioerror_ok(exc, 'A.gin', search) and not st) or rt.no('applied something')
+    if wb is None:
+      # the include is resolved against the FULL location list, and what preceded it took effect
+      return (_ioerror_ok(exc, 'B.gin', search) and st == {('', 'vw.dflt'): {'a': 200 + wa}}) or rt.no(
+          'state after the unreadable include: %r' % (st,))
+    if exc is not None:
+      return rt.no('unexpected exception %r' % (exc,))
+    return (st == {('', 'vw.dflt'): {'a': 200 + wa, 'b': 210 + wb}, ('', 'vw.kws'): {'after': 1}} and
+            _tree(res) == ('A.gin', (), (('B.gin', (), ()),))) or rt.no('nested resolution: %r' % (st,))
+
+
+# ---- skip_unknown travels through includes, for every entry point ---------------------------------------------
+SKIPS = [None, True, ['vw.nosuch'], ('vw.nosuch',)]
+BADS = ['vw.nosuch.x = 1\n', 'import no_such_mod_c14\n']
+
+
+def c14_skip(entry: int, depth: int, what: int, skip: int) -> bool:
+  """
+  pre: 0 <= entry < 4 and 0 <= depth < 3 and 0 <= what < 2 and 0 <= skip < 4
+  """
+  world.fresh()
+  entry = rt.pick(entry, 4)   # 0 multi-file entry (chain hangs off a file), 1 multi-file entry (off the bindings),
+  #                             2 parse_config_file, 3 parse_config
+  depth = rt.pick(depth, 3)   # include depth of the text holding the unknown name (0 = the top-level text)
+  what = rt.pick(what, 2)     # 0 binding of an unknown configurable, 1 import of an unknown module
+  skip = rt.pick(skip, 4)     # 0 skip_unknown not passed, 1 True, 2 list naming it, 3 tuple naming it
+  with rt.native():
+    rt.sig(('skip', entry, depth, what, skip))
+    text = {}
+    for k in range(depth + 1):
+      text[k] = ('vw.dflt.a = %d\n' % (k + 1) + (BADS[what] if k == depth else "include 'd%d.gin'\n" % (k + 1)) +
+                 'vw.kws.l%d = 1\n' % k)
+    world.use_mem_fs({'d%d.gin' % k: t for k, t in text.items()})
+    kw = {} if skip == 0 else {'skip_unknown': SKIPS[skip]}
+    exc = None
+    try:
+      if entry == 0:
+        gin.parse_config_files_and_bindings(['d0.gin'], ['vw.dflt.b = 5'], **kw)
+      elif entry == 1:
+        gin.parse_config_files_and_bindings([], text[0].split('\n'), **kw)
+      elif entry == 2:
+        gin.parse_config_file('d0.gin', **kw)
+      else:
+        gin.parse_config(text[0], **kw)
+    except Exception as e:
+      exc = e
+    st = _state()
+    if exc is not None:
+      if not isinstance(exc, (ValueError, ImportError)):
+        return rt.no('unexpected kind of error %r' % (exc,))
+      if entry < 2 and gin.config_is_locked():
+        return rt.no('finalized although parsing failed')
+      if skip == 0 or (what == 1 and skip >= 2):
+        return True       # default: an error.  (A LIST of configurable names vs. an unknown import: either way.)
+      return rt.no('skip_unknown was passed, the unknown name still raised %r' % (exc,))
+    if skip == 0:
+      return rt.no('unknown name accepted without skip_unknown')
+    want = {('', 'vw.dflt'): {'a': depth + 1}, ('', 'vw.kws'): {'l%d' % k: 1 for k in range(depth + 1)}}
+    if entry == 0:
+      want[('', 'vw.dflt')]['b'] = 5
+    if st != want:
+      return rt.no('bindings around the skipped name: %r' % (st,))
+    return entry >= 2 or gin.config_is_locked() or rt.no('not finalized')
+
+
+# ---- the multi-file entry point: missing-file position, argument shapes, what finalizing means -------------------
+def c14_multi(miss: int, fshape: int, bshape: int, fin: bool, hook: bool, req: int) -> bool:
+  """
+  pre: 0 <= miss < 5 and 0 <= fshape < 3 and 0 <= bshape < 5 and 0 <= req < 4
+  """
+  world.fresh()
+  miss = rt.pick(miss, 5)       # 0 nothing missing, 1 a missing file first, 2 between f1 and f2,
+  #                               3 included from the middle of f1, 4 included by the last extra binding
+  fshape = rt.pick(fshape, 3)   # config_files as 0 list, 1 tuple, 2 None (no files)
+  bshape = rt.pick(bshape, 5)   # bindings as 0 list, 1 tuple, 2 one newline-separated string, 3 None,
+  #                               4 list whose last element includes g14.gin
+  fin, hook = rt.flag(fin), rt.flag(hook)
+  req = rt.pick(req, 4)         # f1 marks vw.kws.r %gin.REQUIRED: 0 no, 1 never overridden, 2 overridden in f2,
+  #                               3 overridden in the extra bindings
+  with rt.native():
+    if (fshape == 2 and miss in (1, 2, 3)) or (bshape == 3 and miss == 4):
+      rt.discard()
+    rt.sig(('multi', miss, fshape, bshape, fin, hook, req))
+    # events in flattened order: (selector, param, value) | 'MISSING'
+    ev_f1 = [('vw.dflt', 'a', 1)] + (['MISSING'] if miss == 3 else []) + [('vw.kws', 'f1', 1)] + (
+        [('vw.kws', 'r', 'REF')] if req else [])
+    ev_f2 = [('vw.dflt', 'a', 2), ('vw.kws', 'f2', 1)] + ([('vw.kws', 'r', 7)] if req == 2 else [])
+    ev_g = [('vw.dflt', 'a', 4), ('vw.kws', 'g', 1)]
+
+    def text(evs):
+      return ''.join("include 'missing14.gin'\n" if e == 'MISSING' else
+                     '%s.%s = %s\n' % (e[0], e[1], '%gin.REQUIRED' if e[2] == 'REF' else e[2]) for e in evs)
+    world.use_mem_fs({'f1.gin': text(ev_f1), 'f2.gin': text(ev_f2), 'g14.gin': text(ev_g)})
+    files, events = [], []
+    if fshape != 2:
+      files = ['f1.gin', 'f2.gin']
+      events = ev_f1 + ev_f2
+      if miss == 1:
+        files, events = ['missing14.gin'] + files, ['MISSING'] + events
+      if miss == 2:
+        files, events = ['f1.gin', 'missing14.gin', 'f2.gin'], ev_f1 + ['MISSING'] + ev_f2
+    binds = []
+    if bshape != 3:
+      binds = ['vw.dflt.a = 3', 'vw.kws.bb = 1'] + (['vw.kws.r = 8'] if req == 3 else [])
+      events = events + [('vw.dflt', 'a', 3), ('vw.kws', 'bb', 1)] + ([('vw.kws', 'r', 8)] if req == 3 else [])
+      if bshape == 4:
+        binds.append("include 'g14.gin'")
+        events = events + ev_g
+      if miss == 4:
+        binds.append("include 'missing14.gin'")
+        events = events + ['MISSING']
+    arg_f = [files, tuple(files), None][fshape]
+    arg_b = [binds, tuple(binds), '\n'.join(binds), None, binds][bshape]
+    want, missing = {}, False
+    for e in events:
+      if e == 'MISSING':
+        missing = True
+        break
+      want.setdefault(('', e[0]), {})[e[1]] = e[2]
+    unmet = want.get(('', 'vw.kws'), {}).get('r') == 'REF'
+    calls = []
+    if hook:
+      def seen_by_hook(config):
+        calls.append(_state())
+        return {'vw.dflt.b': 7}
+      gin.config.register_finalize_hook(seen_by_hook)
+    exc = res = None
+    try:
+      if fin:
+        res = gin.parse_config_files_and_bindings(arg_f, arg_b)             # finalizing is the default
+      else:
+        res = gin.parse_config_files_and_bindings(arg_f, arg_b, finalize_config=False)
+    except Exception as e:
+      exc = e
+    st = _state()
+    if missing:
+      # files in the order given, then the bindings: what precedes the unreadable name is applied, nothing after it
+      if not _ioerror_ok(exc, 'missing14.gin', ['']):
+        return False
+      if st != want:
+        return rt.no('applied with a missing file: %r, expected %r' % (st, want))
+      return (not gin.config_is_locked() and not calls) or rt.no('finalized although a file was missing')
+    if fin and unmet and exc is not None:
+      # finalizing rejected the never-overridden %gin.REQUIRED: by then files AND bindings had been applied
+      return (isinstance(exc, ValueError) and st == want) or rt.no('failed finalize: %r %r' % (exc, st))
+    if exc is not None:
+      return rt.no('unexpected exception %r' % (exc,))
+    if [r.filename for r in res] != files:
+      return rt.no('returned list')
+    if gin.config_is_locked() != fin:
+      return rt.no('finalize flag')
+    if not fin or not hook:
+      return (st == want and not calls) or rt.no('bindings: %r, expected %r' % (st, want))
+    # the hook ran exactly once, after the files and the bindings, and its update was applied
+    if calls != [want]:
+      return rt.no('finalize hook saw %r, expected once %r' % (calls, want))
+    want.setdefault(('', 'vw.dflt'), {})['b'] = 7
+    return st == want or rt.no('after the hook: %r' % (st,))
+
+
 HARNESSES = {
     'c14_include': dict(
         fn='c14_include',
         anchors=['gin.config:parse_config_file', 'gin.config:parse_config'],
         smoke=[dict(shape=2, mid=True, a1=True, a2=False, b1=True, b2=True, c1=False, c2=True,
-                    v0=0, v1=1, v2=2, v3=3, v4=4, v5=5, vm=9)],
-        tiers={'quick': dict(split=dict(shape=[0, 1, 2, 3], mid=[False, True]), budget_s=100),
-               'thorough': dict(split=dict(shape=[0, 1, 2, 3], mid=[False, True], a1=[False, True]),
-                                budget_s=300)},
+                    v0=0, v1=1, v2=2, v3=3, v4=4, v5=5, vm=9, spell=sp) for sp in range(5)],
+        tiers={'quick': dict(split=dict(shape=[0, 1, 2, 3], mid=[False, True], spell=[0, 1, 2, 3, 4]), budget_s=100),
+               'thorough': dict(split=dict(shape=[0, 1, 2, 3], mid=[False, True], a1=[False, True],
+                                           spell=[0, 1, 2, 3, 4]), budget_s=300)},
         bounds='3 files, 4 include-tree shapes (chain, two children, nested+repeated, none), a conflicting binding '
-               'optionally before and after the includes of every file and between two includes; per-file imports; '
+               'optionally before and after the includes of every file and between two includes; the conflicting '
+               'binding written flat everywhere / as a block in the middle file / with a shorter selector in the outer '
+               'files / under a scoped key / as a macro re-bound across the boundaries; per-file imports; '
                'values: all ints (through constants)'),
     'c14_search': dict(
         fn='c14_search',
         anchors=['gin.config:parse_config_file', 'gin.config:register_file_reader',
                  'gin.config:add_config_file_search_path'],
         smoke=[dict(badinc=False, order=True, rorder=False, absolute=False, e00=False, e01=False, e10=True, e11=True,
-                    e20=True, e21=False),
+                    e20=True, e21=False, deco=False, vanish=False),
                dict(badinc=True, order=False, rorder=True, absolute=False, e00=False, e01=False, e10=True, e11=True,
-                    e20=True, e21=False)],
-        tiers={'quick': dict(split=dict(order=[False, True], rorder=[False, True]), budget_s=100),
-               'thorough': dict(split=dict(order=[False, True], rorder=[False, True],
-                                           absolute=[False, True]), budget_s=300)},
+                    e20=True, e21=False, deco=True, vanish=False),
+               dict(badinc=False, order=False, rorder=True, absolute=False, e00=False, e01=False, e10=True, e11=True,
+                    e20=True, e21=False, deco=True, vanish=True)],
+        tiers={'quick': dict(split=dict(order=[False, True], rorder=[False, True], deco=[False, True],
+                                        vanish=[False, True]), budget_s=100),
+               'thorough': dict(split=dict(order=[False, True], rorder=[False, True], deco=[False, True],
+                                           vanish=[False, True], absolute=[False, True]), budget_s=300)},
         bounds='3 search locations (current directory + 2 added in either order) x 2 readers registered in either '
-               'order; existence of the file per (location, reader) is a symbolic boolean returned by the reader\'s '
-               'own existence check; relative or absolute name; optionally every candidate includes a name nobody can read (the failure must propagate, no fall-through)'),
+               'order, by the two-argument call or in decorator form; existence of the file per (location, reader) is a '
+               'symbolic boolean returned by the reader\'s own existence check; relative or absolute name; optionally '
+               'every candidate includes a name nobody can read, or its open fails after the positive existence check '
+               '(either failure must propagate: no other candidate is opened, nothing more is applied)'),
     'c14_entry': dict(
         fn='c14_entry',
         anchors=['gin.config:parse_config_files_and_bindings', 'gin.config:finalize'],
@@ -270,7 +714,87 @@ HARNESSES = {
                'thorough': dict(split=dict(entry=[0, 1, 2], nfiles=[0, 1, 2]), budget_s=300)},
         bounds='0-2 files + optional extra binding, finalize on/off, an unknown name in either file or in the '
                'bindings, through all three parsing entry points'),
+    'c14_pkg': dict(
+        fn='c14_pkg',
+        anchors=['gin.config:parse_config_file', 'gin.resource_reader:system_path_file_exists',
+                 'gin.resource_reader:system_path_reader', 'gin.resource_reader:_parse_config_path'],
+        smoke=[dict(name=k, via=k % 4, mem=0) for k in range(13)] + [dict(name=9, via=0, mem=1),
+                                                                     dict(name=11, via=1, mem=2)],
+        tiers={'quick': dict(split=dict(via=[0, 1, 2, 3]), budget_s=100),
+               'thorough': dict(split=dict(via=[0, 1, 2, 3], mem=[0, 1, 2]), budget_s=300)},
+        bounds='13 kinds of name resolved by Gin\'s own readers against the fixture package vfp14 on the Python path '
+               '(file in a package / sub-package, dotted package spelling, a package file including a package-relative '
+               'name, parent package missing, sub-package missing, file missing, namespace-package head, head naming a '
+               'module, bare name or sub-directory name under an added package location with and without trailing '
+               'slash, absolute path) x 4 ways in (parse_config_file, include from a file, multi-file entry, include '
+               'from parse_config bindings) x an in-memory file of the same name registered after the package reader '
+               '(none / under the name as given / under the location-qualified name)'),
+    'c14_disk': dict(
+        fn='c14_disk',
+        anchors=['gin.config:parse_config_file', 'gin.config:add_config_file_search_path',
+                 'gin.resource_reader:system_path_file_exists'],
+        smoke=[dict(l1=0, l2=1, dp=True, m0=False, m1=True, m2=True, slash=False, absn=False),
+               dict(l1=1, l2=0, dp=True, m0=False, m1=True, m2=False, slash=True, absn=False),
+               dict(l1=0, l2=0, dp=False, m0=False, m1=False, m2=True, slash=False, absn=False),
+               dict(l1=2, l2=1, dp=True, m0=True, m1=False, m2=False, slash=False, absn=True),
+               dict(l1=2, l2=2, dp=False, m0=False, m1=False, m2=False, slash=False, absn=False)],
+        tiers={'quick': dict(split=dict(l1=[0, 1, 2], absn=[False, True]), budget_s=100),
+               'thorough': dict(split=dict(l1=[0, 1, 2], l2=[0, 1, 2], absn=[False, True]), budget_s=300)},
+        bounds='current directory + 2 added locations, each a real temporary directory / a package directory holding '
+               'the file / a package directory without it (equal kinds = the same location registered twice), with or '
+               'without trailing slash; the file present on disk or not, and present in the in-memory reader at any '
+               'subset of the 3 locations; relative name or the absolute path of the disk file; readers in Gin\'s order: '
+               'built-in open, Python-path reader, registered reader'),
+    'c14_nested': dict(
+        fn='c14_nested',
+        anchors=['gin.config:parse_config_file', 'gin.config:add_config_file_search_path'],
+        smoke=[dict(order=False, a0=False, a1=True, a2=False, b0=True, b1=True, b2=False),
+               dict(order=True, a0=False, a1=True, a2=True, b0=False, b1=False, b2=False)],
+        tiers={'quick': dict(split=dict(order=[False, True]), budget_s=100),
+               'thorough': dict(split=dict(order=[False, True], a0=[False, True]), budget_s=300)},
+        bounds='an including file and the file it includes, each present at any subset of 3 locations (2 added in '
+               'either order): the included name is resolved from the full location list, independently of where the '
+               'including file was found'),
+    'c14_skip': dict(
+        fn='c14_skip',
+        anchors=['gin.config:parse_config_files_and_bindings', 'gin.config:parse_config_file',
+                 'gin.config:parse_config', 'gin.config:_should_skip'],
+        smoke=[dict(entry=0, depth=2, what=0, skip=1), dict(entry=1, depth=1, what=1, skip=1),
+               dict(entry=2, depth=2, what=0, skip=2), dict(entry=3, depth=1, what=0, skip=3),
+               dict(entry=2, depth=1, what=0, skip=0), dict(entry=3, depth=2, what=1, skip=0)],
+        tiers={'quick': dict(split=dict(entry=[0, 1, 2, 3]), budget_s=100),
+               'thorough': dict(split=dict(entry=[0, 1, 2, 3], depth=[0, 1, 2]), budget_s=300)},
+        bounds='an unknown configurable binding or an unknown import at include depth 0, 1 or 2 below each of the '
+               'entry points (multi-file entry via a file or via its bindings, parse_config_file, parse_config), '
+               'skip_unknown not passed (must raise) / True / a list / a tuple naming the configurable (must be '
+               'skipped at every depth, everything else applied)'),
+    'c14_multi': dict(
+        fn='c14_multi',
+        anchors=['gin.config:parse_config_files_and_bindings', 'gin.config:finalize',
+                 'gin.config:find_missing_overrides_hook'],
+        smoke=[dict(miss=0, fshape=0, bshape=0, fin=True, hook=True, req=3),
+               dict(miss=0, fshape=1, bshape=4, fin=True, hook=True, req=2),
+               dict(miss=0, fshape=2, bshape=2, fin=False, hook=True, req=0),
+               dict(miss=0, fshape=0, bshape=3, fin=True, hook=False, req=1),
+               dict(miss=1, fshape=0, bshape=0, fin=True, hook=True, req=0),
+               dict(miss=2, fshape=1, bshape=1, fin=True, hook=True, req=1),
+               dict(miss=3, fshape=0, bshape=2, fin=True, hook=False, req=0),
+               dict(miss=4, fshape=2, bshape=4, fin=True, hook=True, req=0)],
+        tiers={'quick': dict(split=dict(miss=[0, 1, 2, 3, 4], fin=[False, True]), budget_s=100),
+               'thorough': dict(split=dict(miss=[0, 1, 2, 3, 4], fin=[False, True], bshape=[0, 1, 2, 3, 4]),
+                                budget_s=300)},
+        bounds='multi-file entry with files f1, f2 given as list / tuple / None, extra bindings given as list / tuple / '
+               'one newline-separated string / None / a list ending in an include; a missing file first, between the '
+               'files, included from the middle of f1, or included by the last binding; finalize on (by default) / off; '
+               'a registered finalize hook that records what it sees and adds a binding; a %gin.REQUIRED in f1 never '
+               'overridden / overridden in f2 / overridden in the bindings'),
 }
-ASSUMPTIONS = ['files live in an in-memory file system behind gin.register_file_reader; package-relative names '
-               '(gin/resource_reader.py) are exercised only by the repository\'s own test and are outside this check']
-OUTSIDE = 'real files on disk, the package reader, include cycles, more than 3 files'
+ASSUMPTIONS = ['files live in an in-memory file system behind gin.register_file_reader, in the fixture package '
+               '/verif/fixtures/vfp14 (read by Gin\'s own Python-path reader) or in a temporary directory created and '
+               'removed per path (read by the built-in open); the current directory of the check (/verif) holds none '
+               'of the names used',
+               'c14_pkg, c14_disk, c14_nested, c14_skip, c14_multi run their leaves natively on concrete values: the '
+               'solver enumerates the choices and certifies that the bounded choice space was covered completely']
+OUTSIDE = ('include cycles, more than 3 files per tree, names relative to the current directory that exist on disk '
+           '(the check never changes directory), zip-imported packages, readers whose existence check raises, '
+           'print_includes_and_imports, a bare string as config_files')
